@@ -688,6 +688,9 @@ func Check(id, tier string) int {
 	var order []string
 	for _, v := range violations {
 		sig := v.Res.Fail.Symptom + "|" + featStr(v.Res.Fail.Features)
+		if v.Res.Fail.Symptom == "hang" {
+			sig = "hang|" + v.Part // one confirmation per part is enough
+		}
 		g := groups[sig]
 		if g == nil {
 			g = &grp{first: v}
